@@ -22,7 +22,7 @@ EXPLANATION = (
 SUP_RULES = ("SEED-", "IFT-domain", "IFT-extension", "IFT-pred", "IFT-order", "IFT-cost", "IFT-policy", "IFT-graph", "IFT-guard",
              "PRIM-guard",
              "IFT-update-sites", "PRIM-mark", "PRIM-key", "PRIM-domain", "PRIM-pred", "PRIM-policy", "PRIM-start",
-             "SCAN-", "FIT-fresh")
+             "SCAN-", "FIT-fresh", "PREMISE-INPLACE", "PREMISE-DECORATOR")
 
 
 def check_supervised_premises(chk, rep, repo):
